@@ -1771,9 +1771,15 @@ fn child_load() {
         let mut it = line.splitn(2, ' ');
         let flags = it.next().unwrap().to_string();
         let hex = it.next().unwrap_or("");
-        let bytes: Vec<u8> = (0..hex.len() / 2)
-            .map(|i| u8::from_str_radix(&hex[2 * i..2 * i + 2], 16).unwrap())
-            .collect();
+        let hv = |c: u8| -> u8 {
+            match c {
+                b'0'..=b'9' => c - b'0',
+                b'a'..=b'f' => c - b'a' + 10,
+                _ => panic!("bad hex digit"),
+            }
+        };
+        let hb = hex.as_bytes();
+        let bytes: Vec<u8> = (0..hb.len() / 2).map(|i| hv(hb[2 * i]) * 16 + hv(hb[2 * i + 1])).collect();
         let mk = |flags: &str| {
             let vm = mk_vm(flags.contains('p'), flags.contains('h'));
             if flags.contains('p') {
@@ -1807,9 +1813,11 @@ fn child_load() {
 }
 
 fn hex(b: &[u8]) -> String {
+    const D: &[u8; 16] = b"0123456789abcdef";
     let mut s = String::with_capacity(b.len() * 2);
     for x in b {
-        s.push_str(&format!("{:02x}", x));
+        s.push(D[(x >> 4) as usize] as char);
+        s.push(D[(x & 15) as usize] as char);
     }
     s
 }
@@ -1907,13 +1915,12 @@ fn spawn_child(input: &[u8], timeout: Duration) -> gv::child::Exit {
 fn run_batch(cases: &[(String, Vec<u8>)]) -> Vec<LoadOutcome> {
     let mut res: Vec<Option<LoadOutcome>> = vec![None; cases.len()];
     let mut start = 0;
+    // one line per case, encoded once (a restart after a dead child re-sends the rest)
+    let lines: Vec<String> = cases.iter().map(|(f, b)| format!("{} {}\n", f, hex(b))).collect();
     while start < cases.len() {
-        let mut input = String::new();
-        for (f, b) in &cases[start..] {
-            input.push_str(f);
-            input.push(' ');
-            input.push_str(&hex(b));
-            input.push('\n');
+        let mut input = String::with_capacity(lines[start..].iter().map(|l| l.len()).sum());
+        for l in &lines[start..] {
+            input.push_str(l);
         }
         let ex = spawn_child(input.as_bytes(), Duration::from_secs(45));
         let (stdout, how) = match &ex {
@@ -2646,9 +2653,15 @@ fn judge_damaged(
     damaged: Vec<(String, Vec<u8>, serde_json::Value, &'static str, String, bool)>,
 ) {
     let cases: Vec<(String, Vec<u8>)> = damaged.iter().map(|d| (d.0.clone(), d.1.clone())).collect();
+    // the chunks (same boundaries as ever) run in child processes side by side: wall-clock time on a
+    // loaded machine; the order of the results is that of the cases
     let mut res = vec![];
-    for chunk in cases.chunks(1500) {
-        res.extend(run_batch(chunk));
+    let per_chunk: Vec<Vec<LoadOutcome>> = std::thread::scope(|s| {
+        let hs: Vec<_> = cases.chunks(1500).map(|chunk| s.spawn(move || run_batch(chunk))).collect();
+        hs.into_iter().map(|h| h.join().expect("run_batch thread")).collect()
+    });
+    for r in per_chunk {
+        res.extend(r);
     }
     for (d, r) in damaged.iter().zip(res) {
         let (_, _, replay, kind, path, must_err) = d;
@@ -2846,6 +2859,8 @@ fn main() {
         return;
     }
     let thorough = args.thorough();
+    let t_start = std::time::Instant::now();
+    let phase = |name: &str| eprintln!("[c12] {:>6} ms  {}", t_start.elapsed().as_millis(), name);
     // ---- stream A/B
     let mut rng = Rng::new(args.seed, 12);
     let mut damaged = vec![];
@@ -2882,6 +2897,7 @@ fn main() {
             }
         }
     }
+    phase("A: corpus + generated programs done");
     // names / strings that need escaping, in every string-carrying position of the module
     {
         let n_names = if thorough { 600 } else { 120 };
@@ -2899,6 +2915,7 @@ fn main() {
             }
         }
     }
+    phase("A': names done");
     // exhaustive truncation of one small program: every byte position
     {
         let vs = vms(false, false);
@@ -2920,6 +2937,7 @@ fn main() {
     }
     out.add("B:damaged-cases", damaged.len() as u64);
     judge_damaged(&mut out, damaged);
+    phase("B: damaged loads judged");
     // ---- stream C
     let mut rng_c = Rng::new(args.seed, 1212);
     stream_c(&mut out, &mut rng_c, if thorough { 4000 } else { 500 });
@@ -2928,6 +2946,8 @@ fn main() {
     let mut rng_t = Rng::new(args.seed, 12121212);
     stream_text(&mut out, &mut rng_t, if thorough { 5000 } else { 600 });
     let mut rng_i = Rng::new(args.seed, 1212121212);
+    phase("C / cyclic / text done");
     stream_instrs(&mut out, &mut rng_i, if thorough { 6000 } else { 900 });
+    phase("instrs done");
     out.finish();
 }
